@@ -1,6 +1,7 @@
 package main
 
 import (
+	"golang.org/x/tools/go/ssa"
 	"encoding/json"
 	"flag"
 	"fmt"
@@ -41,6 +42,8 @@ func main() {
 			code = cmdReplay(os.Args[2:])
 		case "selftest":
 			code = cmdSelftest(os.Args[2:])
+		case "closures":
+			code = cmdClosures(os.Args[2:])
 		default:
 			fmt.Fprintln(os.Stderr, "unknown command", os.Args[1])
 		}
@@ -335,6 +338,9 @@ func runProperty(v *Verifier, prop, tier, only string, seed int, verbose bool) *
 	res := &propResult{prop: prop, tier: tier, seed: seed}
 	reps, obls := collect(v, prop, only)
 	res.reps, res.obls = reps, obls
+	for _, b := range v.checkImmutable() {
+		res.undecided = append(res.undecided, "immutable declaration violated: "+b)
+	}
 	for _, r := range reps {
 		if r.Unsupported != "" {
 			res.undecided = append(res.undecided, r.Key+": "+r.Unsupported)
@@ -400,6 +406,10 @@ func runProperty(v *Verifier, prop, tier, only string, seed int, verbose bool) *
 		}
 	}
 	for _, o := range obls {
+		if o.Result != nil && o.Result.allErrors() {
+			res.undecided = append(res.undecided, "solver error on "+o.Name+": "+trunc(o.Result.Runs[0].Output, 200))
+			continue
+		}
 		if o.Cover {
 			res.nCover++
 			if !o.ok() {
@@ -596,6 +606,33 @@ func cmdDump(args []string) int {
 				}
 			}
 		}
+	}
+	return 0
+}
+
+func cmdClosures(args []string) int {
+	v, err := loadVerifier(repoDir, nil)
+	if err != nil {
+		fmt.Fprintln(os.Stderr, "load failed:", err)
+		return 2
+	}
+	for _, a := range args {
+		// a = pkgpath-suffix:Key e.g. internal/transfer:SendManifestMultiStream
+		parts := strings.SplitN(a, ":", 2)
+		fn := v.funcForKey(repoModule+"/"+parts[0], parts[1])
+		if fn == nil {
+			fmt.Println("not found:", a)
+			continue
+		}
+		var rec func(f *ssa.Function, indent string)
+		rec = func(f *ssa.Function, indent string) {
+			for _, c := range f.AnonFuncs {
+				fmt.Printf("%s%s  (%s) blocks=%d\n", indent, v.closureName(c), v.fset.Position(c.Pos()), len(c.Blocks))
+				rec(c, indent+"  ")
+			}
+		}
+		fmt.Println(a)
+		rec(fn, "  ")
 	}
 	return 0
 }
